@@ -518,6 +518,16 @@ class Router:
         except (PacketTooLongException, SendingException):
             pass
 
+    def _cbf_discard(self, cbf_key: tuple) -> None:
+        """
+        §F.3: remove a packet from the CBF buffer and stop its timer (no-op when
+        the packet is not buffered).
+        """
+        with self._cbf_lock:
+            timer = self._cbf_buffer.pop(cbf_key, None)
+            if timer is not None:
+                timer.cancel()
+
     def gn_area_cbf_forwarding(
         self,
         basic_header: BasicHeader,
@@ -1671,6 +1681,10 @@ class Router:
             print("Incongruent Timestamp Detected!")
         except DuplicatedPacketException:
             print("Packet is duplicated")
+            # §F.3: a duplicate overheard while the packet waits in the CBF buffer
+            # means another forwarder was faster → stop the timer, drop the copy
+            self._cbf_discard(
+                (gbc_extended_header.so_pv.gn_addr, gbc_extended_header.sn))
         except DecodeError as e:
             print(str(e))
         return None
